@@ -17,6 +17,9 @@ import (
 	"reflect"
 	"time"
 
+	"github.com/goatcms/goatcore/filesystem/filespace/memfs"
+	"github.com/goatcms/goatcore/i18n/fsi18loader"
+	"github.com/goatcms/goatcore/i18n/i18mem"
 	"github.com/goatcms/goatcore/varutil/plainmap"
 )
 
@@ -154,11 +157,21 @@ func checkRead(m map[string]interface{}, flatWant map[string]string) *failure {
 	return nil
 }
 
+func mergeKey(cur interface{}, key, val string) interface{} {
+	m, ok := cur.(map[string]interface{})
+	if !ok {
+		m = map[string]interface{}{}
+	}
+	m[key] = val
+	return m
+}
+
 func main() {
 	depth := flag.Int("depth", 2, "nesting depth of the maps")
 	vlen := flag.Int("vlen", 2, "maximal length (in characters of the significant set) of JSON values")
 	vlen2 := flag.Int("vlen2", -1, "maximal length of the second value (default: vlen)")
 	input := flag.String("input", "", "replay: the recorded input (the whole bounded space is re-run, it takes a second)")
+	reps := flag.Int("reps", 5, "repetitions of every loader layout (scheduling)")
 	out := flag.String("out", "", "result file")
 	flag.Parse()
 	_ = input
@@ -167,7 +180,7 @@ func main() {
 	}
 	start := time.Now()
 	res.Exhausted = true
-	res.Bound = fmt.Sprintf("nested maps over keys %q, leaves \"x\"/\"\", depth <= %d; flat maps {a: v1, b.c: v2, b.d: v1} for all v1 of up to %d and v2 of up to %d characters from %q (both JSON writers); encoding/json documents {k: v1, n: {k: v2, num: 7}}", keys, *depth, *vlen, *vlen2, chars)
+	res.Bound = fmt.Sprintf("nested maps over keys %q, leaves \"x\"/\"\", depth <= %d; flat maps {a: v1, b.c: v2, b.d: v1} for all v1 of up to %d and v2 of up to %d characters from %q (both JSON writers); encoding/json documents {k: v1, n: {k: v2, num: 7}}; translation directories of 1..16 files nested 0..3 deep, each layout loaded %d times", keys, *depth, *vlen, *vlen2, chars, *reps)
 	for _, m := range nested(*depth) {
 		res.Cases++
 		if len(m) > 0 {
@@ -232,6 +245,54 @@ func main() {
 			add(checkRead(map[string]interface{}{"k": v1, "n": map[string]interface{}{"k": v2, "num": 7}}, map[string]string{"k": v1, "n.k": v2, "n.num": "7"}))
 			if res.Cases%3001 == 5 && len(res.Samples) < 10 {
 				res.Samples = append(res.Samples, fmt.Sprintf("flat %q", flat))
+			}
+		}
+	}
+	// loading a directory of translation files: every key of every file is translatable,
+	// whatever the number of files, their nesting and the scheduling of the loader
+	for _, files := range []int{1, 2, 3, 7, 16} {
+		for _, depth := range []int{0, 1, 3} {
+			for rep := 0; rep < *reps; rep++ {
+				res.Cases++
+				res.Nontriv++
+				fs, _ := memfs.NewFilespace()
+				want := map[string]string{}
+				for f := 0; f < files; f++ {
+					dir := ""
+					for d := 0; d < depth; d++ {
+						dir += fmt.Sprintf("d%d_%d/", d, f%(d+2))
+					}
+					doc := map[string]interface{}{}
+					for k := 0; k < 3; k++ {
+						key := fmt.Sprintf("k%d", k)
+						val := fmt.Sprintf("value %d/%d \"q\" \\ \n é", f, k)
+						doc[fmt.Sprintf("f%d", f)] = mergeKey(doc[fmt.Sprintf("f%d", f)], key, val)
+						want[fmt.Sprintf("f%d.%s", f, key)] = val
+					}
+					raw, _ := json.Marshal(doc)
+					fs.WriteFile(fmt.Sprintf("%sf%d.json", dir, f), raw, 0666)
+					fs.WriteFile(fmt.Sprintf("%signored%d.txt", dir, f), []byte("not json"), 0666)
+				}
+				i18 := i18mem.NewI18N()
+				var err error
+				func() {
+					defer func() {
+						if r := recover(); r != nil {
+							err = fmt.Errorf("panic: %v", r)
+						}
+					}()
+					err = fsi18loader.Load(fs, "./", i18, nil)
+				}()
+				if err != nil {
+					add(&failure{"loader", fmt.Sprintf("files=%d depth=%d", files, depth), err.Error()})
+					continue
+				}
+				for k, v := range want {
+					if got, terr := i18.Translate(k); terr != nil || got != v {
+						add(&failure{"loader-every-key-translatable", fmt.Sprintf("files=%d depth=%d key=%s", files, depth, k), fmt.Sprintf("Translate = %q, %v; want %q", got, terr, v)})
+						break
+					}
+				}
 			}
 		}
 	}
